@@ -60,6 +60,53 @@ func (c *ctx) nilSafety() {
 				break
 			}
 		}
+		// the object was found as the Sel of a selector expression (`info.Uses[sel.Sel]`): an identifier selected from
+		// a package belongs to that package - its Pkg() is never nil
+		if !guarded {
+			if ise, ok := inner.Fun.(*ast.SelectorExpr); ok {
+				if obj := astx.IdentObj(info, ise.X); obj != nil {
+					if fd := fc.funcDecl(call); fd != nil {
+						isSel := func(e ast.Expr) bool {
+							e = astx.Unparen(e)
+							if se, ok := e.(*ast.SelectorExpr); ok && se.Sel.Name == "Sel" {
+								return true
+							}
+							if o := astx.IdentObj(info, e); o != nil {
+								found := false
+								astx.Writes(fd.Body, func(l ast.Expr, at ast.Node) {
+									if astx.IdentObj(info, l) == o {
+										if as, ok := at.(*ast.AssignStmt); ok && len(as.Rhs) == 1 {
+											if se, ok := astx.Unparen(as.Rhs[0]).(*ast.SelectorExpr); ok && se.Sel.Name == "Sel" {
+												found = true
+											}
+										}
+									}
+								})
+								return found
+							}
+							return false
+						}
+						ast.Inspect(fd.Body, func(n ast.Node) bool {
+							as, ok := n.(*ast.AssignStmt)
+							if !ok || len(as.Rhs) != 1 {
+								return true
+							}
+							for _, l := range as.Lhs {
+								if astx.IdentObj(info, l) != obj {
+									continue
+								}
+								if ix, ok := astx.Unparen(as.Rhs[0]).(*ast.IndexExpr); ok {
+									if use, ok := astx.Unparen(ix.X).(*ast.SelectorExpr); ok && use.Sel.Name == "Uses" && isSel(ix.Index) {
+										guarded = true
+									}
+								}
+							}
+							return true
+						})
+					}
+				}
+			}
+		}
 		if why, ok := nilTable[key]; ok && !guarded {
 			c.s.OK("G23", key, c.pos(call), "table entry: "+why)
 			return
